@@ -36,7 +36,7 @@ extern "C" void sym_body()
     symsource_t         src("r" + tk, n, 1, 0);
     src.load();
     // threads=<K>;sched=<0 rr|1 last|2 reversed|3 arbitrary>: sequentialised multi-worker pool (any assignment of chunks to workers)
-    dataset_t ds(src, setup_workers(cfgi("threads", 1), cfgi("sched", 0)));
+    dataset_t ds(src, setup_workers(cfgi("threads", 1), cfgi("sched", 0), cfgi("arb", -1)));
     add_identity_generators(ds);
     indices_t samples = all_samples(n);
     if (cfgi("sub", 0))
